@@ -738,7 +738,8 @@ func quoteSym(s string) string {
 // Script builds a self-contained SMT-LIB script checking satisfiability of the conjunction of asserts.
 type Script struct {
 	Asserts []*Term
-	Observe []*Term // extra terms whose model value is requested
+	Observe []*Term          // extra terms whose model value is requested
+	Named   map[string]*Term // observation constants: each is declared, asserted equal to its term and reported alone (replay)
 	Steps   []BatchStep
 }
 
@@ -800,6 +801,14 @@ func (sc *Script) Render(logic string, extraAxioms []*Term, wantModel bool) stri
 	var order []*Term
 	seen := map[*Term]bool{}
 	all := append(append([]*Term{}, extraAxioms...), sc.Asserts...)
+	var namedKeys []string
+	for k := range sc.Named {
+		namedKeys = append(namedKeys, k)
+	}
+	sort.Strings(namedKeys)
+	for _, k := range namedKeys {
+		all = append(all, sc.Named[k])
+	}
 	for _, st := range sc.Steps {
 		all = append(all, st.Perm...)
 		all = append(all, st.Temp...)
@@ -987,7 +996,19 @@ func (sc *Script) Render(logic string, extraAxioms []*Term, wantModel bool) stri
 		}
 		return sb.String()
 	}
+	for _, k := range namedKeys {
+		t := sc.Named[k]
+		fmt.Fprintf(&sb, "(declare-fun %s () %s)\n(assert (= %s %s))\n", quoteSym(k), t.Sort, quoteSym(k), t.inline(names))
+	}
 	sb.WriteString("(check-sat)\n")
+	if len(namedKeys) > 0 {
+		var qs []string
+		for _, k := range namedKeys {
+			qs = append(qs, quoteSym(k))
+		}
+		fmt.Fprintf(&sb, "(get-value (%s))\n", strings.Join(qs, " "))
+		return sb.String()
+	}
 	if wantModel {
 		var vals []string
 		for _, c := range consts {
